@@ -19,6 +19,8 @@ FK = {
     "recc": ("::dxrt::RecC", lambda tag, s: f"::dxrt::RecC::new({tag}, {s})"),
     "paircc": ("(::dxrt::RecC, u8)", lambda tag, s: f"(::dxrt::RecC::new({tag}, {s}), {s % 100}u8)"),
     "optc": ("::core::option::Option<::dxrt::RecC>", lambda tag, s: f"::core::option::Option::Some(::dxrt::RecC::new({tag}, {s}))" if s % 2 else "::core::option::Option::None"),
+    # inherent fns clone() / clone_from() that do something else than the Clone impl
+    "sh": ("::dxrt::Sh", lambda tag, s: f"::dxrt::Sh({s % 100})"),
     "T": ("T", lambda tag, s: f"{REC}::new({tag}, {s})"),
     "vecT": ("::std::vec::Vec<T>", lambda tag, s: "vec![" + ", ".join(f"{REC}::new({tag}, {s * 10 + k})" for k in range(1 + s % 2)) + "]"),
     "u8": ("u8", lambda tag, s: f"{s % 200}u8"),
@@ -35,7 +37,7 @@ def gen_spec(rng, kind=None):
     generic = rng.random() < 0.3
     # Copy derived next to Clone (either order): `clone` must still be field-wise
     copy = rng.choice(["before", "after"]) if rng.random() < 0.2 else None
-    pool = ["rec", "rec", "vec", "opt", "box", "pair", "u8", "string"] + (["T", "vecT"] if generic else [])
+    pool = ["rec", "rec", "vec", "opt", "box", "pair", "u8", "string", "sh"] + (["T", "vecT"] if generic else [])
     if copy:
         pool = ["recc", "recc", "paircc", "optc", "u8"] + (["T"] if generic else [])
     nv = 1 if kind == "struct" else rng.randint(1, 4)
